@@ -56,11 +56,13 @@ def observe(c):
   d = tg.build_tree(c['tree'])
   x = np.array(fl(c['x']))
   out = []
+  # one exported list is evaluated at many flows by a solver: for two thirds of the cases every function and Jacobian has been called
+  # before with OTHER values in the same caller buffer (core.maybe_stale), so nothing may be remembered from an earlier evaluation
   for con in d.constraints:
-    v = fr(np.array(con['fun'](x)).reshape(-1)[0])
+    v = fr(np.array(core.maybe_stale(c, con['fun'], x)).reshape(-1)[0])
     j = None
     if 'jac' in con:
-      j = fr(np.array(con['jac'](x), dtype=float).reshape(-1))
+      j = fr(np.array(core.maybe_stale(c, con['jac'], x), dtype=float).reshape(-1))
     out.append((con['type'] == 'eq', v, j))
   return {'cons': out}
 
